@@ -15,6 +15,7 @@ import (
 	"fmt"
 
 	"golang.org/x/crypto/otr"
+	"verif/ref/otrref"
 	"verif/vf"
 )
 
@@ -194,6 +195,24 @@ func (e *exec) run() string {
 			"AKE did not bring both sides to the encrypted state", e.counts())
 		e.expect(A.newKeys == 1 && B.newKeys == 1, "one key exchange reported NewKeys more than once", e.counts())
 		e.expect(A.conv.SSID == B.conv.SSID, "the two sides computed different session ids", nil)
+		if sim != 0 {
+			// "compare the hashed gx you sent with the one you received, as 32-byte unsigned big-endian
+			// values; if yours is the higher: ignore the incoming commit and resend yours; otherwise reply
+			// with a D-H Key message" - so the D-H Key message comes from the side with the lower hash.
+			da, db := commitDigest(e.firstCommit[0]), commitDigest(e.firstCommit[1])
+			if da == nil || db == nil {
+				e.fail("simultaneous start: a side did not send a well-formed D-H commit message", nil)
+			} else if c := bytes.Compare(da, db); c != 0 {
+				loser := 0
+				if c < 0 {
+					loser = 0
+				} else {
+					loser = 1
+				}
+				e.expect(e.firstKeyFrom == loser, "SYN crossing: the D-H key message was not sent by the side with the lower commit hash", map[string]any{
+					"A_hash": fmt.Sprintf("%x", da[:8]), "B_hash": fmt.Sprintf("%x", db[:8]), "dh_key_sent_by": e.firstKeyFrom})
+			}
+		}
 	}
 
 	// --- data ---
@@ -280,4 +299,33 @@ func (e *exec) run() string {
 	return fmt.Sprintf("enc=%s keys=%d/%d got=%d/%d of %d/%d smp=c%d%d f%d%d ended=%d",
 		encAfterAKE, A.newKeys, B.newKeys, A.got, B.got, len(B.sent), len(A.sent),
 		A.complete, B.complete, min(A.failed, 1), min(B.failed, 1), B.ended)
+}
+
+// commitDigest extracts the hashed gx (second DATA field) of a D-H commit message.
+func commitDigest(m *lmsg) []byte {
+	if m == nil {
+		return nil
+	}
+	bin, ok := otrref.Decode(m.whole)
+	if !ok || otrref.Type(bin) != otrref.TypeDHCommit {
+		return nil
+	}
+	b := bin[3:]
+	for i := 0; i < 2; i++ {
+		if len(b) < 4 {
+			return nil
+		}
+		n := int(b[0])<<24 | int(b[1])<<16 | int(b[2])<<8 | int(b[3])
+		if n > len(b)-4 {
+			return nil
+		}
+		if i == 1 {
+			if n != 32 || len(b) != 4+n {
+				return nil
+			}
+			return b[4:]
+		}
+		b = b[4+n:]
+	}
+	return nil
 }
